@@ -15,7 +15,7 @@ use super::{
     dot_lookup::DotChain,
     list::Index,
     r#type::{IntoType, TypecheckFlags},
-    CompilationState, Compile, Dependencies, Ident, TypeLayout, Value,
+    r#type::NativeType, CompilationState, Compile, Dependencies, Ident, TypeLayout, Value,
 };
 
 pub static PRATT_PARSER: Lazy<PrattParser<Rule>> = Lazy::new(|| {
@@ -170,6 +170,17 @@ fn parse_path(
                     .for_type()
                     .details(lhs_span, &user_data.get_source_file_name(), "Invalid index")
                     .to_err_vec()?;
+
+                if let TypeLayout::Native(NativeType::Str(..)) =
+                    lhs_ty.disregard_distractors(true)
+                {
+                    return Err(vec![new_err(
+                        lhs_span,
+                        &user_data.get_source_file_name(),
+                        "a character of a string cannot be assigned: strings are immutable"
+                            .to_owned(),
+                    )]);
+                }
 
                 let index = Parser::list_index(
                     Node::new_with_user_data(op, Rc::clone(&user_data)),
